@@ -11,10 +11,13 @@ class Violation(Exception):
         Exception.__init__(self, label); self.label = label; self.model = model; self.detail = detail
 
 def expect(I, cond, label, detail=None):
-    """harness assertion: the deciding query `pc AND NOT cond`"""
-    m = I.ctx.violates(cond)
-    if m is not None:
-        raise Violation(label, m, detail)
+    """harness assertion.  It is a branch of the exploration (recorded in the trail, so re-execution is deterministic):
+    the side on which `cond` is false - decided by the solver query `pc AND NOT cond` - ends in a violation leaf"""
+    ctx = I.ctx
+    ctx.assert_queries += 1
+    if cond is True: return
+    if cond is False or not ctx.branch(cond):
+        raise Violation(label, ctx.current_model(), detail)
 
 def model_inputs(ctx, model):
     out = {}
